@@ -320,7 +320,7 @@ def make_arrays(case_seed, shapes, kind, operands=None):
         b = a.T
         if b is a:  # rank < 2: numpy may hand back the same object
             b = a[...]
-    assert b.shape == tuple(shapes[1]) and np.shares_memory(a, b)
+    assert b.shape == tuple(shapes[1]) and (a.size == 0 or np.shares_memory(a, b))
     return [a, b]
 
 
@@ -709,6 +709,7 @@ def run_shard(rep, tier, seed, shard, nshards):
     # -- random larger cases --------------------------------------------------
     run_random(rep, sink, tier, seed, shard)
     run_random_square(rep, sink, tier, seed, shard)
+    run_random_empty(rep, sink, tier, seed, shard)
     if shard == 0:
         probe_negative_axes(rep)
 
@@ -718,9 +719,9 @@ def run_shard(rep, tier, seed, shard, nshards):
 LETTERS = "abcdefghxyzABXY"
 
 
-def rand_desc(rng):
+def rand_desc(rng, SIZES=SIZES, nsyms=(4, 5)):
     what = rng.random()
-    nsym = rng.choice([4, 5])
+    nsym = rng.choice(nsyms)
     alpha = rng.sample(LETTERS, nsym)
     sd = {ix: rng.choice(SIZES) for ix in alpha}
     if what < 0.6:
@@ -850,6 +851,37 @@ def run_random(rep, sink, tier, seed, shard):
     if block:
         run_block(rep, sink, block)
     rep.count("space_done", "RND", done)
+
+
+ZERO_SIZES = (0, 0, 1, 2, 3)
+
+
+def run_random_empty(rep, sink, tier, seed, shard):
+    """EMPTY: operands with a dimension of size 0 (an empty batch, an empty bond): the reference value
+    is well defined (an empty array, or zeros where the empty index is summed) and numpy returns it."""
+    dl = Deadline(budget(tier, 100, 1200))
+    n = budget(tier, 700, 12000)
+    block = []
+    done = 0
+    for k in range(n):
+        if dl.expired():
+            rep.note(f"empty-dimension workload stopped by its deadline after {k} cases")
+            break
+        cs = f"{seed}/{PID}/EMPTY/{shard}/{k}"
+        rng = rng_for(cs)
+        space, desc = rand_desc(rng, ZERO_SIZES, nsyms=(2, 3, 3, 4))
+        shapes = desc[-1]
+        if not any(0 in shp for shp in shapes):
+            continue
+        block.append((space, desc, f"EMPTY-{space}", cs, rng.choice(["float", "complex"])))
+        done += 1
+        rep.mon("empty_dimension")
+        if len(block) >= BLOCK:
+            run_block(rep, sink, block)
+            block = []
+    if block:
+        run_block(rep, sink, block)
+    rep.count("space_done", "EMPTY", done)
 
 
 def probe_negative_axes(rep):
